@@ -10,6 +10,9 @@
 (declare-sort Dec 0)
 (declare-sort F64 0)
 (declare-sort F32 0)
+(declare-fun f64.zero () F64)
+(declare-fun f32.zero () F32)
+(declare-fun dec.zero () Dec)
 ; Go `any` as the evaluator sees it
 (declare-datatypes ((Val 0)) ((
   (VNil)
@@ -24,6 +27,7 @@
   (VObj (vobj Int))
   (VOther (votype Int) (voref Int))  ; every other dynamic type (foreign values, typed slices, pointers ...)
 )))
+(declare-datatypes ((Heap 0)) (((mkheap (hq (Array Int (Array Int Val))) (hm (Array Int (Array Int Val))) (hd (Array Int (Array Int Bool))) (hc (Array Int Int))))))
 (define-fun nilslice () Slice (mkslice 0 0 0 0))
 (define-fun niliface () Iface (mkiface 0 0))
 (define-fun MaxInt () Int 9223372036854775807)
